@@ -519,20 +519,27 @@ Proof. exact derive_cmd_flat. Qed.
 Print Assumptions C15_generated_command_flat.
 
 (** EXTRACTION CANNOT FAIL AFTER A SUCCESSFUL COMMAND PARSE, ALL ARGV, structs of fields and flattened structs (optional
-    flattens included: their members are extracted only when the group is present, and are then guaranteed like any other). *)
+    flattens included: their members are extracted only when the group is present, and are then guaranteed like any other).
+    The well-formedness of the derive input ([wf_nodes]: ids of arguments and groups distinct per level) is not a hypothesis:
+    it follows from clap's own assertions on the generated command ([valid_flat_wf]). *)
+Theorem C15_valid_flat_wf : forall d bin,
+  flat_nodes (d_nodes d) = true -> valid (with_bin (derive_cmd d) bin) = true -> wf_nodes (d_nodes d).
+Proof. exact valid_flat_wf. Qed.
+Print Assumptions C15_valid_flat_wf.
+
 Theorem C15_extract_total_argv_flat : forall d argv m,
-  flat_nodes (d_nodes d) = true -> wf_nodes (d_nodes d) -> Forall guarded (leaves (d_nodes d)) ->
+  flat_nodes (d_nodes d) = true -> Forall guarded (leaves (d_nodes d)) ->
   valid (with_bin (derive_cmd d) (hd [] argv)) = true ->
   parse_top (derive_cmd d) argv = OOk m -> enum_ok_nodes (d_nodes d) m = true ->
   exists vs, extract d m = XOk vs.
-Proof. exact extract_total_argv_flat. Qed.
+Proof. exact extract_total_argv_flat_valid. Qed.
 Print Assumptions C15_extract_total_argv_flat.
 
 Theorem C15_parse_succeeds_iff_command_flat : forall d argv,
-  flat_nodes (d_nodes d) = true -> wf_nodes (d_nodes d) -> Forall guarded (leaves (d_nodes d)) ->
+  flat_nodes (d_nodes d) = true -> Forall guarded (leaves (d_nodes d)) ->
   valid (with_bin (derive_cmd d) (hd [] argv)) = true ->
   ((exists vs, derived_parse d argv = PValue vs) <-> (exists m, cmd_parse (derive_cmd d) (d_nodes d) argv = OOk m)).
-Proof. exact parse_iff_command_flat. Qed.
+Proof. exact parse_iff_command_flat_valid. Qed.
 Print Assumptions C15_parse_succeeds_iff_command_flat.
 
 (** Non-vacuity: [{ a: String, #[flatten] inner: { b: u8, c: bool }, #[flatten] opt: Option<{ e: Option<u8> }> }] on
